@@ -36,6 +36,9 @@ CLAIMS = {
  "C10": ("Lean 4 theorems (Props/C10.lean, 31) for an arbitrary hash family: bloom add/mono/merge/zero sizes, file_probe_eq_mem (byte probe of the little-endian image = in-memory bit, any bit count), save/raw/filters round-trips, bloom_offset_correct, range_no_fn/merge_hull, combined_no_fn, the container invariant node_filter_sup preserved by push (all cases), pop, re-push, offload, possible_rev_complete, check_filter_no_fn (= the hypothesis of C01's prune_transparent). Tie: pearl::Bloom is driven directly and every answer, serialized image, merge, file probe, off-load and reload is compared bit for bit with the model running its Lean port of the vendored aHash fallback hasher (pinned vectors reproduced); storage-level check_filters/check_filter are judged by a no-false-negative oracle over histories with offloads, restores and restarts.",
          "4/C10", "bits_count (f64 formula) is an input; the literal stack-machine iterator is tied to the recursive one by #guard tests only (listed NOT YET PROVED); storage-level filter bits are not compared bit-exactly",
          "Lean 4 proofs over filter/container models + bit-exact correspondence on the Bloom type + no-false-negative oracle"),
+ "C11": ("Fault enumeration through the I/O failpoints of the hook (the n-th create/write/sync on blob or index files fails with ENOSPC/EIO or is cut short) in client calls and background dumps, judged by the Spec-level oracle over the implementation's own acknowledgements (an acknowledged record must stay readable in the session and be served or preserved intact in the corrupted directory after restart; a failed operation must never be served later; operations succeed once the fault clears; worker alive; rotation continues) plus byte snapshots; on top of the L5/L6 theorems (Props/C05, C07, C12: what a write puts where, append-only log, sync discipline). A Lean fault model with its own theorems (acked_stay_readable, failed_not_served_later) is not yet written: this check is proof-backed only through those layers.",
+         "4/C11", "model comparison is off while a fault is armed; one known finding (E8: a torn tail record with a complete header is accepted by the index-less scan)",
+         "fault enumeration with Spec oracle on the implementation, backed by the Lean byte/trace theorems"),
  "C12": ("Tap-trace predicates on the implementation for every dirty-byte limit (header synced before the first record of a new blob; index header with written bit only after a sync of its blob covering blob_size, followed by the index's own sync; no un-synced bytes after explicit fsyncdata or close of the active blob; un-synced bytes <= limit at quiescence); Lean 4 L6 event model and Props/C12.lean theorems over all operation sequences are in progress (trace correspondence).",
          "4/C12", "sync_all durability is the OS's promise; quiescence = worker queue drained and no blocking closure running; the window 'bytes acknowledged while a background sync is in flight' is examined by C08/C14 scenarios",
          "Lean 4 proof over the file-operation trace model + tap-trace predicates on the implementation"),
@@ -73,7 +76,7 @@ def main():
             "guard": "pearl_verif",
             "enable": "RUSTFLAGS=--cfg pearl_verif (harness/.cargo/config.toml sets it for the harness build of /repo)",
             "baseline_off_cmd": "cd /repo && cargo test --workspace --no-fail-fast --offline",
-            "source_commits": ["cae4c50", "4216739"],
+            "source_commits": ["cae4c50", "4216739", "c0a1e13"],
             "add_only": True,
         },
         "engines": [{
@@ -83,7 +86,7 @@ def main():
         }],
         "checks": checks,
         "not_applicable": na,
-        "notes": "fix: commits in /repo: a311110 (C15 E1), 0b3a5fc (C04/C11 E2), 33c2a77 (C13 E3), 2eb3c52 (C03 E4), 1b4c650 (C12 E13), 225d28c (C07/C03 E9), 0ede233 (C12 E14), e937426 (C16 E5); see known_findings.json and DESIGN.md section 5",
+        "notes": "fix: commits in /repo: a311110 (C15 E1), 0b3a5fc (C04/C11 E2), 33c2a77 (C13 E3), 2eb3c52 (C03 E4), 1b4c650 (C12 E13), 225d28c (C07/C03 E9), 0ede233 (C12 E14), e937426 (C16 E5), 9bcfef8 (C11 E10), 310988c (C11 E15), 5a4cce7 (C11 E16); see known_findings.json and DESIGN.md section 5",
     }
     json.dump(m, open(os.path.join(ROOT, 'MANIFEST.json'), 'w'), indent=1)
 
